@@ -74,10 +74,14 @@ func (t *websocketTransport) Send(ctx context.Context, e envelope) error {
 		// Effectively fails all pending write operations before returning.
 		// Note that this makes the encoder to be in a permanent error state.
 		_ = conn.SetWriteDeadline(time.Now())
+		// The deadline above only applies to the next writes: a write that is already blocked
+		// (the peer is not reading) is only interrupted through the underlying connection.
+		_ = conn.UnderlyingConn().SetWriteDeadline(time.Now())
 		if err := <-errChan; err == nil {
 			// The envelope was completely written before the context was done,
 			// so the operation succeeded (and the connection is still usable).
 			_ = conn.SetWriteDeadline(time.Time{})
+			_ = conn.UnderlyingConn().SetWriteDeadline(time.Time{})
 			return nil
 		}
 		return fmt.Errorf("ws transport: send: %w", ctx.Err())
